@@ -35,9 +35,16 @@ def _lamspec(term):
     return toks
 
 
+def con_name(c):
+    """constraint kind of a constraint given as a registry string or as a callable from pygam.penalties"""
+    if callable(c):
+        return CON_NAMES[c.__name__]
+    return CON_NAMES[c]
+
+
 def _conspec(term):
     cons = list(term.constraints)
-    return [str(len(cons))] + [CON_NAMES[c] for c in cons]
+    return [str(len(cons))] + [con_name(c) for c in cons]
 
 
 def encode_marg(term):
@@ -107,7 +114,7 @@ def _feature_kinds(rng, m):
     return kinds
 
 
-def gen_data(rng, n, kinds):
+def gen_data(rng, n, kinds, one_level_prob=0.0):
     X = np.zeros((n, len(kinds)))
     info = []
     for j, k in enumerate(kinds):
@@ -120,7 +127,7 @@ def gen_data(rng, n, kinds):
             X[:, j] = lo + span * np.array(pos)
             info.append(('num', lo, span))
         elif k == 'cat':
-            ncat = rng.randint(2, 5)
+            ncat = 1 if rng.random() < one_level_prob else rng.randint(2, 5)
             base = rng.choice([0, 1, -2, 7])
             codes = [rng.randint(0, ncat - 1) for _ in range(n)]
             for c in range(ncat):
@@ -153,11 +160,11 @@ def _safe_positions(rng, nrow, n_splines, order, cyclic, extrap):
 
 
 def gen_program(rng, pygam_mod, n_rows=12, n_query=8, allow_constraints=True, allow_periodic_penalty=True,
-                max_terms=4, tensor_prob=0.35, extrap=True):
+                max_terms=4, tensor_prob=0.35, extrap=True, one_level_prob=0.0):
     from pygam.terms import SplineTerm, LinearTerm, FactorTerm, TensorTerm, Intercept, TermList
     m = rng.randint(3, 5)
     kinds = _feature_kinds(rng, m)
-    X, info = gen_data(rng, n_rows, kinds)
+    X, info = gen_data(rng, n_rows, kinds, one_level_prob)
     num_feats = [j for j, k in enumerate(kinds) if k == 'num']
     cat_feats = [j for j, k in enumerate(kinds) if k == 'cat']
     by_feats = [j for j, k in enumerate(kinds) if k == 'by'] or num_feats
@@ -189,6 +196,10 @@ def gen_program(rng, pygam_mod, n_rows=12, n_query=8, allow_constraints=True, al
         if allow_constraints and rng.random() < 0.5:
             ncon = rng.choice([1, 1, 2])
             cons = [rng.choice(['monotonic_inc', 'monotonic_dec', 'convex', 'concave', None, 'none']) for _ in range(ncon)]
+            if rng.random() < 0.3:
+                # the same constraints given as the callables of pygam.penalties instead of their registry names
+                import pygam.penalties as _pen
+                cons = [getattr(_pen, c) if (isinstance(c, str) and c != 'none') else c for c in cons]
             if ncon == 1 and rng.random() < 0.5:
                 cons = cons[0]
         by = rng.choice(by_feats) if rng.random() < 0.3 else None
@@ -196,6 +207,8 @@ def gen_program(rng, pygam_mod, n_rows=12, n_query=8, allow_constraints=True, al
         if rng.random() < 0.25:
             lo, hi = X[:, feat].min(), X[:, feat].max()
             ek = [float(lo - 0.25 * (hi - lo)), float(hi + 0.5 * (hi - lo))]
+            if rng.random() < 0.35:
+                ek = ek[::-1]       # a pair of edge knots is a set: the order in which the user gives it is immaterial
         t = SplineTerm(feat, n_splines=n_spl, spline_order=order, lam=lam, penalties=pens if npen > 1 else pens[0],
                        constraints=cons, basis=basis, by=by, edge_knots=ek)
         spline_cfg.setdefault(feat, []).append((n_spl, order, basis == 'cp', ek))
